@@ -689,6 +689,26 @@ impl Solve<SimUser, Eng> for PrimGoal {
             (PFn::IsNumber, _) => Stream::empty(),
             (PFn::IsVar, LTermInner::Var(_, _)) => Stream::unit(Box::new(state)),
             (PFn::IsVar, _) => Stream::empty(),
+            (PFn::IsGround, _) => {
+                if syntactically_ground(&self.inp) {
+                    Stream::unit(Box::new(state))
+                } else {
+                    Stream::empty()
+                }
+            }
         }
+    }
+}
+
+/// No variable anywhere in the term as it is written (no substitution consulted).
+fn syntactically_ground(t: &PTerm) -> bool {
+    match t.as_ref() {
+        LTermInner::Var(_, _) => false,
+        LTermInner::Cons(h, tl) => syntactically_ground(h) && syntactically_ground(tl),
+        LTermInner::Compound(_) => match crate::cmpd::parts(t) {
+            Some((_, fields)) => fields.iter().all(syntactically_ground),
+            None => true,
+        },
+        _ => true,
     }
 }
